@@ -66,6 +66,15 @@ def post_plan(seed, tier, jobs, results):
                     "timeout": 600,
                 }
             )
+        if (ci // chunk) % 2 == 0:
+            out.append(
+                {
+                    "world": worlds[(ci // chunk + 2) % nworlds],
+                    "fn": "userland_dispatch",
+                    "payload": {"seed": "%s/c16u/%d" % (seed, ci), "reps": 6},
+                    "timeout": 300,
+                }
+            )
         out.append(
             {
                 "world": worlds[(ci // chunk + 5) % nworlds],
@@ -535,6 +544,154 @@ def _safe_issubclass_strict(a, b):
     return issubclass(a, b)
 
 
+def userland_dispatch(payload):
+    """A user-defined registry whose patterns parametrise tuples, variadic
+    tuples, unions and frozensets; the same argument objects are dispatched in
+    seeded different orders (fresh registry each time, cache drops in between):
+    the rule must be a function of the argument types alone."""
+    from sim.iso import fork_call
+
+    res = fork_call(_userland_session, (payload,), timeout=240)
+    if res.get("status") != "ok":
+        raise RuntimeError("userland session failed: %s" % (res.get("err") or res))
+    return res["res"]
+
+
+def _userland_session(payload):
+    import typing
+    from collections import OrderedDict
+
+    import numpy as np
+
+    import funsor
+    from funsor.domains import BintType, RealsType
+    from funsor.registry import KeyedRegistry
+    from funsor.terms import Funsor, Number, Variable
+
+    r = W.rng(payload["seed"])
+    mon = Monitor()
+    mon.install()
+
+    class UKey:
+        pass
+
+    patterns = [
+        ("any", (object,)),
+        ("fs", (frozenset,)),
+        ("fs_str", (typing.FrozenSet[str],)),
+        ("fs_int", (typing.FrozenSet[int],)),
+        ("fs_var", (typing.FrozenSet[Variable],)),
+        ("fs_bintvar", (typing.FrozenSet[Variable[str, BintType]],)),
+        ("tup", (tuple,)),
+        ("tup_int_var", (typing.Tuple[int, ...],)),
+        ("tup_int_int", (typing.Tuple[int, int],)),
+        ("tup_int_str", (typing.Tuple[int, str],)),
+        ("tup_str_var", (typing.Tuple[str, ...],)),
+        ("tup_nested", (typing.Tuple[typing.Tuple[str, BintType], ...],)),
+        ("funsor", (Funsor,)),
+        ("tensor", (funsor.Tensor,)),
+        ("number", (Number,)),
+        ("variable", (Variable,)),
+        ("intstr", ((int, str),)),
+        ("f_fs", (Funsor, frozenset)),
+        ("t_fsbint", (funsor.Tensor, typing.FrozenSet[Variable[str, BintType]])),
+        ("f_tup", (Funsor, tuple)),
+        ("t_tupint", (funsor.Tensor, typing.Tuple[int, ...])),
+    ]
+
+    def make():
+        reg = KeyedRegistry(default=lambda *a: None)
+        fns = {}
+        for name, types in patterns:
+            def fn(*args, _name=name):
+                return _name
+
+            fn.__name__ = fn.__qualname__ = "user_rule_" + name
+            reg.register(UKey, *types)(fn)
+        return reg
+
+    i2 = Variable("i", funsor.Bint[2])
+    j3 = Variable("j", funsor.Bint[3])
+    x = Variable("x", funsor.Real)
+    t = funsor.Tensor(np.arange(3.0), OrderedDict(j=funsor.Bint[3]))
+    singles = [
+        frozenset(),
+        frozenset({"a", "b"}),
+        frozenset({1, 2, 3}),
+        frozenset({i2}),
+        frozenset({i2, j3}),
+        frozenset({x}),
+        frozenset({i2, x}),
+        (),
+        (1,),
+        (1, 2),
+        (1, 2, 3),
+        (1, "a"),
+        ("a", "b"),
+        (1.5,),
+        (("i", funsor.Bint[2]), ("j", funsor.Bint[3])),
+        t,
+        Number(1),
+        Number(1.5),
+        i2,
+        x,
+        3,
+        "s",
+        2.5,
+    ]
+    argsets = [(a,) for a in singles]
+    for a in (t, Number(2.0), x):
+        for b in (frozenset(), frozenset({i2}), frozenset({x}), frozenset({"q"}), (), (1, 2), ("a",)):
+            argsets.append((a, b))
+    tables = []
+    violations = []
+    faults = {}
+    dispatches = 0
+    for rep in range(payload.get("reps", 6)):
+        reg = make()
+        order = list(range(len(argsets)))
+        r.shuffle(order)
+        table = {}
+        for idx in order:
+            if r.random() < 0.15:
+                for d in reg.registry.values():
+                    d._cache.clear()
+                faults["cache_drop"] = faults.get("cache_drop", 0) + 1
+                mon.checked.clear()
+            if r.random() < 0.05:
+                from funsor.typing import deep_issubclass
+
+                deep_issubclass.cache_clear()
+                faults["lru_drop"] = faults.get("lru_drop", 0) + 1
+            try:
+                fn = reg.dispatch(UKey, *argsets[idx])
+                table[idx] = getattr(fn, "__name__", "<default>")
+            except Exception as e:  # noqa
+                table[idx] = "raises:" + type(e).__name__
+            dispatches += 1
+        tables.append(table)
+        mon.checked.clear()
+    ref = tables[0]
+    for rep, table in enumerate(tables[1:], 1):
+        for idx, rule in table.items():
+            if ref[idx] != rule and not violations:
+                violations.append(
+                    {
+                        "invariant": "dispatch-depends-on-history",
+                        "message": "user registry: arguments %r resolved to %s in one order of first use and to %s in another"
+                        % (tuple(type(a).__name__ if not isinstance(a, (tuple, frozenset)) else a for a in argsets[idx]), ref[idx], rule),
+                        "fingerprint": "dispatch-depends-on-history",
+                    }
+                )
+    violations.extend(v for v in mon.violations if v["invariant"] == "winner-not-most-specific")
+    mon.uninstall()
+    return {
+        "violations": violations[:1],
+        "stats": {"runs": 0, "dispatch_calls": mon.calls, "userland_dispatches": dispatches, "userland_argument_tuples": len(argsets), "faults": faults},
+        "table": {},
+    }
+
+
 def instance_checks(payload):
     """Every term is an instance of its own precise type and of every
     generalisation of it (weaken one parameter)."""
@@ -680,7 +837,7 @@ def summarize(jobs, results, tier):
     faults = {}
     samples = []
     for job, res in zip(jobs, results):
-        if job["fn"] not in ("run_session", "instance_checks") or not res or res.get("status") != "ok":
+        if job["fn"] not in ("run_session", "instance_checks", "userland_dispatch") or not res or res.get("status") != "ok":
             continue
         st = res["res"]["stats"]
         for k, v in st.items():
@@ -715,6 +872,7 @@ def summarize(jobs, results, tier):
         "axiom_pairs_evaluated": tot.get("axiom_pairs", 0),
         "axiom_triples_covered": tot.get("axiom_triples", 0),
         "instance_checks": tot.get("instance_checks", 0),
+        "userland_registry_dispatches": tot.get("userland_dispatches", 0),
         "frozenset_order_checks": tot.get("frozenset_checks", 0),
         "terms_visited": tot.get("terms", 0),
         "faults_fired_by_kind": faults,
